@@ -9,3 +9,4 @@ from . import fasta  # noqa: F401
 from . import assembly_sort  # noqa: F401
 from . import cli_files  # noqa: F401
 from . import build_assembly  # noqa: F401
+from . import build_utils  # noqa: F401
